@@ -893,6 +893,33 @@ class SymSet(Model):
     ip.note_write(self)
     self.emit_facts(ip)
 
+  def py_update(self, ip, *others):
+    """set.update(iterable, ...): exact union.  mem' = mem U {s[i] | 0 <= i < len(s)}; the membership
+    of the sequence is a fresh predicate with a skolemised witness index (no nested existential);
+    card <= card' <= card + len(s), and card' == card when nothing new is added."""
+    c = ip.ctx
+    ty = self.ty
+    for other in others:
+      s = ip.as_symseq(other)
+      if s.ty.sort != ty.sort:
+        raise EngineError("set.update with elements of another sort")
+      n = s.length()
+      inseq = z3.Function(c.fresh_name('inseq'), ty.sort, z3.BoolSort())
+      w = z3.Function(c.fresh_name('inseq_at'), ty.sort, z3.IntSort())
+      i = z3.Int('i?')
+      k = z3.Const('k?' + str(ty.sort), ty.sort)
+      c.assume(z3.ForAll([i], z3.Implies(z3.And(0 <= i, i < n), inseq(s.term[i]))))
+      c.assume(z3.ForAll([k], z3.Implies(inseq(k), z3.And(0 <= w(k), w(k) < n, s.term[w(k)] == k))))
+      old_mem, old_card = self.mem, self.card
+      nm = c.fresh(z3.ArraySort(ty.sort, z3.BoolSort()), self.name + '.mem')
+      nc = c.fresh(z3.IntSort(), self.name + '.card')
+      c.assume(z3.ForAll([k], z3.Select(nm, k) == z3.Or(z3.Select(old_mem, k), inseq(k))))
+      c.assume(z3.And(old_card <= nc, nc <= old_card + n))
+      c.assume(z3.Implies(z3.ForAll([k], z3.Implies(inseq(k), z3.Select(old_mem, k))), nc == old_card))
+      self.mem, self.card = nm, nc
+      ip.note_write(self)
+      self.emit_facts(ip)
+
   def py_remove(self, ip, v):
     if not ip.ctx.branch(self.has(ip, v), 'set.remove present'):
       raise PyRaise(ExcVal('KeyError', (v,)))
